@@ -1054,7 +1054,10 @@ class _NameSanitizer(_NameIndexer):
         return self.val_map[item]
 
     def is_valid_str(self, string):
-        return self.identifier.match(string) and self.extra_checks(string)
+        # A name that looks like one of our generated names is remapped too,
+        # otherwise it could collide with the name generated for another string.
+        return (self.identifier.match(string) and self.extra_checks(string)
+                and not string.startswith(self.internal_prefix))
 
     def make_valid_string(self, string=''):
         """ Inputting a value for the first time. """
